@@ -6,19 +6,19 @@ props = [json.loads(l) for l in open(os.path.join(HERE, "properties.jsonl"))]
 TECH_M = "symbolic execution of rustc MIR into SMT (z3; LIA/LRA, nlsat on purified libm symbols with instantiated lemmas), one query per path against an independent oracle"
 TECH_K = "bounded model checking (Kani/CBMC, SAT) of the compiled real code with fully symbolic inputs"
 CHECKS = {
- "C18": ("K", TECH_K, "Kani/CBMC decides, for all 2^64 f64 bit patterns (and all i64/u64 JSON integer literals), that each of the six newtypes accepts exactly the closed range via TryFrom, FromStr and the derive-generated Deserialize, reads back bit-identical and never panics.",
+ "C18": ("K", TECH_K, "Kani/CBMC decides, for all 2^64 f64 bit patterns (and all i64/u64 JSON integer literals), that each of the six newtypes accepts exactly the closed range via TryFrom, FromStr and the derive-generated Deserialize, reads back bit-identical and never panics; for every printable-ASCII text of length <= 8 the text route accepts exactly what the float grammar + range allow (grammar model of std's parser, counterexample strings replayed against std's real parser).",
          "std's decimal->f64 parser and serde_json's tokenizer are stubbed by 'any f64'; error-message formatting stubbed; composite documents not covered."),
  "C17": ("M", TECH_M, "z3 decides, per path of the symbolically executed MIR of HijriDate::from and helpers, that every Gregorian date (quick: years 1..3000, thorough: 1..9999) converts to the valid tabular Hijri date with the same fixed day number (relational integer oracle), correct weekday, no overflow/panic, accessors total; loops unrolled to 720 with unwinding assertion.",
          "chrono year()/ordinal() model and the f64->integer transfer argument are trusted (stated in evidence); Display formatting outside the claim."),
- "C14": ("M", TECH_M, "z3 decides on every path of the symbolically executed MIR that num_days = max(0,end-start+1), that partition(k) is an exact cover by <= max(k,1) non-empty contiguous parts (none for an empty range) and that prayer_times_dt_rng is the per-day map of exactly the days start..=end, for all start/end with |span| <= 2000 (either order) and k in 0..64.",
+ "C14": ("M", TECH_M, "z3 decides on every path of the symbolically executed MIR that num_days = max(0,end-start+1), that partition(k) is an exact cover by <= max(k,1) non-empty contiguous parts (none for an empty range) and that prayer_times_dt_rng is the per-day map of exactly the days start..=end, for all start/end with |span| <= 2000 (either order) and k in 0..64; the stub assumption (the range loop carries no state besides the date) is checked natively by a range-vs-single-date differential on 7 regime-crossing ranges (both range APIs).",
          "chrono date arithmetic is modelled (trusted base); the per-day computation is a recording stub; spans and k bounded as stated."),
- "C11": ("M+K", TECH_M + "; plus " + TECH_K + " (relational bit-precise harnesses)", "z3 decides, per path of the symbolically executed MIR of hour_to_time/round_secs (4 modes x 7 keys, real hour in [-50,75] h, offsets in [-1500,1500] min, plus the exact whole-second grid), that the clock time is the mode's fixed function of the truncated unrounded second with carries through hour and midnight, moves by < 60 s, never fails from_hms_opt, and that to_prayer_time copies the extreme flag; Kani decides bit-precisely, for every f64 hour of a slice, that the rounded result is the mode's function of the unrounded one (quick 4 harnesses, thorough 85).",
+ "C11": ("M+K", TECH_M + "; plus " + TECH_K + " (relational bit-precise harnesses)", "z3 decides, per path of the symbolically executed MIR of hour_to_time/round_secs (4 modes x 7 keys, real hour in [-50,75] h, offsets in [-1500,1500] min, plus the exact whole-second grid), that the clock time is the mode's fixed function of the truncated unrounded second with carries through hour and midnight, moves by < 60 s, never fails from_hms_opt, that to_prayer_time copies the extreme flag and that every branch of get_imsaak ends in the Fajr-keyed conversion; Kani decides bit-precisely, for every f64 hour of a slice, that the rounded result is the mode's function of the unrounded one (quick 4 harnesses, thorough 85).",
          "exact-real semantics outside 1 microsecond guard bands (+ exact grid) for engine M; engine K harnesses use offset 0; one recorded known finding (f64 sliver where the minute carries twice)."),
- "C03": ("M", TECH_M, "z3/nlsat decides on every path of get_fajr_isha (|lat| <= 60, |dec| <= 23.7, independent angles in [9,21]) the depression-angle identity on the sine scale (0.03 deg), the side of Dhuhr, the 12 h bound, and monotonicity of Fajr/Isha in the angle.",
+ "C03": ("M", TECH_M, "z3/nlsat decides on every path of get_fajr_isha (|lat| <= 60, |dec| <= 23.7, independent angles in [9,21]) the depression-angle identity on the sine scale (0.03 deg), the side of Dhuhr, the 12 h bound, monotonicity of Fajr/Isha in the angle, get_imsaak's parameter branches, and the frame clause of the default policy (an unflagged Fajr/Isha is the conventional one).",
          "libm as uninterpreted functions constrained by instantiated theorems; exact-real f64; ephemeris accuracy and the 0.5 deg instantaneous-altitude clause outside the claim."),
  "C04": ("M", TECH_M, "z3/nlsat decides on every path of get_asr (both schools, |lat| <= 60 incl. lat = dec) the shadow-length rule on the sine scale (0.03 deg), Asr after Dhuhr, Hanafi later than Shafi and Asr before the sunset hour angle.",
          "libm as uninterpreted functions + instantiated theorems; Asr vs the iterated Maghrib correction is outside."),
- "C06": ("M", TECH_M, "z3/nlsat decides on every path of get_fajr_isha and get_shur_magh_m_0_adj up to |lat| <= 89.5 that Err is returned exactly when the defining altitude lies outside the day's [lower, upper] culmination altitudes.",
+ "C06": ("M", TECH_M, "z3/nlsat decides on every path of get_fajr_isha and get_shur_magh_m_0_adj up to |lat| <= 89.5 that Err is returned exactly when the defining altitude lies outside the day's [lower, upper] culmination altitudes; get_imsaak returns Err whenever its Fajr recomputation is Err (no fabricated Imsaak), get_hours/prayer_times_dt pass validity through unchanged under policy None.",
          "libm as uninterpreted functions + instantiated theorems; intra-day declination drift is the property's own 0.05 deg exemption."),
  "C16": ("M", TECH_M, "a nine-step solver-checked proof script over the symbolically executed MIR of Qibla::new shows degrees = -atan2(E,N) (mod 360) of the independent east/north vector form for every latitude in (-90,90) and longitude in [-180,180], range (-180,180], elevation independence, and the rotation label.",
          "libm as uninterpreted functions + instantiated theorems; {:.1} text rendering outside the claim; Kaaba constants must lie within 1e-4 deg of the property's."),
@@ -28,10 +28,10 @@ CHECKS.update({
          "ordering is decided against the first-approximation rise/set hour angle; libm as uninterpreted functions + instantiated theorems; rounding monotone by C11."),
  "C07": ("M", TECH_M, "z3 refutes every reachable panic outcome (unwrap/expect/index/RefCell borrow/overflow/from_hms_opt) of adj_for_ext_lat with all 15 policies, adj_for_int, get_imsaak, prayer_times_dt's assembly and hour_to_time on symbolic hours (all validity patterns), angles [0,25], intervals [0,180], offsets [-1500,1500]; the while-loop in hour_to_time is bounded for hours in [-50,75].",
          "layered: recomputation points are stubs returning arbitrary maps; kernels below get_hours contain no panicking construct (executed symbolically under C02-C06); running time in the grazing band cos(dec)cos(lat)|sin H| < 1e-9 is excluded."),
- "C08": ("M", TECH_M, "z3 decides on every path of adj_for_ext_lat for the 14 policies (symbolic hours, all validity patterns, stubbed recomputation) the frame, identity and flag clauses of the property.",
-         "named-method quantifier for intervals; A1 (interval-defined Isha exists at the substitute latitude); half-of-night exempt from the flag clause."),
- "C09": ("M", TECH_M, "z3 decides on every path of adj_near_good (symbolic validity pattern over offsets -B..B, B = 20 quick / 45 thorough, symbolic ordinal 1..366) that the result is the flagged value of the closest valid offset, earlier date on ties, and that the search never stops before a valid offset within the bound.",
-         "test_fajr_isha stubbed by the validity array; |lat| <= 64 assumption (non-twilight times exist); offsets beyond B outside the tier's claim."),
+ "C08": ("M", TECH_M, "z3 decides on every path of adj_for_ext_lat for the 14 policies (symbolic hours, all validity patterns, stubbed recomputation) the frame, identity and flag clauses of the property (identity also for interval-defined Isha whose discarded angle-based value is Err: recorded known finding interval-flag).",
+         "named-method quantifier for intervals; A1 (interval-defined Isha exists at the substitute latitude); half-of-night exempt from the flag clause; good-day search unrolled 7 probes deep (paths still searching beyond are C09's)."),
+ "C09": ("M", TECH_M, "z3 decides on every path of adj_near_good (symbolic validity pattern over offsets -B..B, B = 20 quick / 45 thorough, symbolic ordinal 1..366) that the result is the flagged value of the closest valid offset, earlier date on ties, that the search never stops before a valid offset within the bound, and that test_fajr_isha accepts a date iff both twilights of get_hours(from_jd(date)) are Ok (no second validity criterion).",
+         "test_fajr_isha stubbed by the validity array in the search obligation (its body is the separate tfi_wiring obligation); |lat| <= 64 assumption (non-twilight times exist); offsets beyond B outside the tier's claim."),
  "C10": ("M", TECH_M, "z3 decides on every path of adj_for_ext_lat the seventh-of-night/day, angle-based and minutes-from-maghrib formulas (3 s), flags, interval re-application, and that nearest-latitude recomputes get_hours exactly once at the substitute latitude with the same longitude/elevation/day and takes exactly the named entries.",
          "Shurooq < Maghrib inside the civil day (property quantifier); recomputation stubbed by a symbolic map; A1."),
  "C12": ("M", TECH_M, "z3 decides the wiring and non-interference obligations: minutes[key] read with its own key and added exactly; interval definitions of Isha/Fajr with the flag preserved; get_imsaak's three branches and extreme branch; weather only into the sunrise/sunset kernel and absent weather = default; get_asr / get_fajr_isha independent of the parameters they must not read.",
@@ -40,8 +40,8 @@ CHECKS.update({
 CHECKS.update({
  "C01": ("M", TECH_M, "z3 decides over the symbolically executed MIR: JulianDay::new = independent day count + 1721424.5 - gmt/24 for every date 1583..9999; get_ra_interp_deltas = differences of the unwrapped RA triple in every wrap case (exact LRA); the Dhuhr part of get_shur_dhuhr_magh puts the hour angle of the interpolated Sun within 10 s of zero (solver-checked proof script); Dhuhr is Ok through get_hours and the policies.",
          "PARTIAL: the accuracy of Astro::new (VSOP87/nutation/sidereal polynomial) and parallax is outside the claim - the oracle interpolates the library's own ephemeris triple; a change inside the ephemeris tables is invisible to this check."),
- "C02": ("M", TECH_M, "z3/nlsat decides the rise/set identity of get_shur_magh_m_0_adj at h0 = -0.833 (+-0.05) with adj in [0,0.5] for |lat| <= 60, the Shurooq-at-m0-adj / Maghrib-at-m0+adj wiring of get_shur_dhuhr_magh with the caller's weather, and that weather reaches only this kernel with absent weather = default.",
-         "PARTIAL: the iterated correction's residual and the 'seconds only' size of the weather shift are not solver-decided; ephemeris accuracy outside."),
+ "C02": ("M", TECH_M, "z3/nlsat decides the rise/set identity of get_shur_magh_m_0_adj at h0 = -0.833 (+-0.05) with adj in [0,0.5] for |lat| <= 60, get_hour_angle = sid + 360.985647 x + lon - RA(x) (mod 360) for every day fraction x, the one-step correction of get_shur_magh (0.05 deg), the Shurooq-at-m0-adj / Maghrib-at-m0+adj wiring of get_shur_dhuhr_magh with the caller's weather, and that weather reaches only this kernel with absent weather = default.",
+         "PARTIAL: ephemeris accuracy (Astro::new) is outside the solver claim and covered only by the native assumption sweep against Meeus ch. 25."),
  "C13": ("M", TECH_M, "z3 decides the code-level causes of day-to-day jumps: Julian Day = day number + const - gmt/24 (so consecutive dates are exactly 1 apart over every month/year/leap boundary), RA interpolation on the unwrapped triple in every wrap case, Dhuhr within 10 s of the interpolated transit.",
          "PARTIAL: the numeric second-difference bounds depend on the smoothness of the real ephemeris (outside the claim)."),
  "C20": ("M", TECH_M, "z3 decides that the GMT offset flows only into JulianDay::new and shifts the Julian Day by exactly -d/24, that longitude enters the transit only through sid + lon (congruence step) and that Dhuhr tracks the interpolated transit within 10 s.",
